@@ -477,6 +477,10 @@ class Engine:
             if kind == "float":
                 return Flt(("const", int(k["bits"])), t["bits"])
             return Top(ti, "const")
+        if "tree" in k:
+            v = self.const_tree(k["tree"])
+            if v is not None:
+                return v
         for key in ("bytes", "ptr_bytes", "indirect_bytes"):
             if key in k:
                 data = bytes(k[key])
@@ -505,6 +509,33 @@ class Engine:
                     return Struct(ti, ())
             return Top(ti, "zst")
         return self.top_of(ti, "const")
+
+    def const_tree(self, t):
+        """Value of a structured aggregate constant (driver: layout-independent tree of arrays / tuples / ADTs of ints)."""
+        T = self.T
+        if "int" in t:
+            ti = t["ty"]
+            if T.t(ti)["k"] == "bool":
+                return TRUE if int(t["int"]) else FALSE
+            ii = T.int_info(ti)
+            if not ii:
+                return None
+            return int_const(int(t["int"]), ii[0], ii[1])
+        fs = [self.const_tree(x) for x in t.get("fields", [])]
+        if any(x is None for x in fs):
+            return None
+        kind = t.get("agg")
+        if kind == "array":
+            return Arr(t["ty"], tuple(fs))
+        if kind == "tuple":
+            return Struct(None, tuple(fs)) if fs else UNIT
+        if kind == "adt":
+            a = T.adt(t["ty"])
+            if a and a.get("kind") == "enum":
+                return Enum(t["ty"], ((int(t.get("variant", 0)), tuple(fs)),), "const")
+            if a and a.get("kind") == "struct":
+                return Struct(t["ty"], tuple(fs))
+        return None
 
     def _fkey(self, f, fr):
         """Hashable descriptor of a fn reference with generic args substituted by the frame."""
@@ -1090,6 +1121,16 @@ class Engine:
             return None
         if k == "cmp":
             cc = c if truth else self.neg_cond(c)
+            if cc[1] in ("Eq", "Ne"):
+                # single symbol against a constant: the exclusion set of the symbol (shared with switchInt's otherwise arm)
+                d0 = cc[2].sub(cc[3])
+                s1 = d0.t[0][0] if len(d0.t) == 1 else None
+                if s1 is not None and d0.t[0][1] in (1, -1):
+                    val = -d0.c * d0.t[0][1]
+                    if cc[1] == "Eq" and val in st.excl.get(s1, ()):
+                        raise Dead()
+                    if cc[1] == "Ne":
+                        st.excl[s1] = frozenset(st.excl.get(s1, frozenset()) | {val})
             for f in self.cond_facts(cc):
                 st.add_fact(f, self)
             if cc[1] == "Ne":
